@@ -39,7 +39,8 @@ ANN = {'int': 'int', 'str': 'str', 'bool': 'bool'}
 LEAN_T = {'int': 'Int', 'str': 'Str', 'bool': 'Bool', 'optpoint': 'Option Point', 'obj': 'AStr',
           'slist': 'List Setting', 'setting': 'Setting', 'point': 'Point', 'optslist': 'Option (List Setting)',
           'pairs': 'List (Nat × Nat)', 'fmtitems': 'Fmts', 'optint': 'Option Int', 'optstr': 'Option Str', 'char': 'Char',
-          'idxmap': 'List (Int × List Setting)', 'ilist': 'List Int'}
+          'idxmap': 'List (Int × List Setting)', 'ilist': 'List Int',
+          'strlist': 'List Str', 'effdict': 'PyDict', 'effkey': 'Nat', 'effkeys': 'List Nat'}
 OPT_OF = {'int': 'optint', 'str': 'optstr', 'slist': 'optslist'}
 BASE_OF = {v: k for k, v in OPT_OF.items()}
 
@@ -145,7 +146,78 @@ class M:
                 return '(%d : Int)' % e.value, 'int'
             if e.value is None:
                 return '(none : Option Point)', 'optpoint'
+            if isinstance(e.value, str):
+                if not e.value:
+                    return '([] : Str)', 'str'
+                return '([%s] : Str)' % ', '.join('Char.ofNat %d' % ord(c) for c in e.value), 'str'
             raise Unsupported('constant %r' % (e.value,))
+        if isinstance(e, ast.Name) and e.id == 'ansi_escape_clear' and e.id not in env:
+            return 'escapeClear', 'str'                          # module constants, regenerated in Tables.lean
+        if isinstance(e, ast.Name) and e.id == 'ansi_sep' and e.id not in env:
+            return 'ansiSep', 'str'
+        # str(AnsiParam.RESET.value)
+        if isinstance(e, ast.Call) and isinstance(e.func, ast.Name) and e.func.id == 'str' and len(e.args) == 1 and not e.keywords:
+            a0 = e.args[0]
+            if ast.unparse(a0) == 'AnsiParam.RESET.value':
+                return '(Py.natStr paramReset)', 'str'
+            # str(EFFECT_CLEAR_DICT[key].value)
+            if isinstance(a0, ast.Attribute) and a0.attr == 'value' and isinstance(a0.value, ast.Subscript) \
+                    and isinstance(a0.value.value, ast.Name) and a0.value.value.id == 'EFFECT_CLEAR_DICT':
+                k = self.typed(a0.value.slice, env, 'effkey')
+                return '(Render.clearCode %s)' % k, 'str'
+            a, ta = self.ex(a0, env)
+            if ta == 'setting':
+                return '%s.txt' % a, 'str'
+            raise Unsupported(ast.unparse(e))
+        # sep.join(<list of str>)
+        if isinstance(e, ast.Call) and isinstance(e.func, ast.Attribute) and e.func.attr == 'join' and len(e.args) == 1 and not e.keywords:
+            sep, tsep = self.ex(e.func.value, env)
+            if tsep == 'str':
+                return '(joinSep %s %s)' % (sep, self.typed(e.args[0], env, 'strlist')), 'str'
+            raise Unsupported(ast.unparse(e))
+        # fmt.format(x) for the SGR template
+        if isinstance(e, ast.Call) and isinstance(e.func, ast.Attribute) and e.func.attr == 'format' and len(e.args) == 1 and not e.keywords \
+                and isinstance(e.func.value, ast.Name) and e.func.value.id == 'ansi_graphic_rendition_format':
+            return '(Render.sgr %s)' % self.typed(e.args[0], env, 'str'), 'str'
+        if isinstance(e, ast.Call) and isinstance(e.func, ast.Name) and e.func.id == 'settings_to_dict' and len(e.args) == 1 and not e.keywords:
+            return '(settingsToDict %s [])' % self.typed(e.args[0], env, 'slist'), 'effdict'
+        if isinstance(e, ast.Call) and isinstance(e.func, ast.Name) and e.func.id == 'bool' and len(e.args) == 1 and not e.keywords:
+            return self.b(e.args[0], env), 'bool'
+        if isinstance(e, ast.Dict) and not e.keys:
+            return '([] : PyDict)', 'effdict'
+        if isinstance(e, ast.Call) and isinstance(e.func, ast.Attribute) and e.func.attr == 'keys' and not e.args and not e.keywords \
+                and isinstance(e.func.value, ast.Name) and env.get(e.func.value.id) == 'effdict':
+            return '(%s.map (·.1))' % mangle(e.func.value.id), 'effkeys'
+        if isinstance(e, ast.List) and e.elts:
+            parts = [self.ex(x, env) for x in e.elts]
+            if all(t == 'str' for _, t in parts):
+                return '[%s]' % ', '.join(a for a, _ in parts), 'strlist'
+            raise Unsupported(ast.unparse(e))
+        if isinstance(e, ast.ListComp) and len(e.generators) == 1 and not e.generators[0].is_async \
+                and isinstance(e.elt, ast.Call) and isinstance(e.elt.func, ast.Name) and e.elt.func.id == 'str' and len(e.elt.args) == 1:
+            g = e.generators[0]
+            # [str(s) for s in <settings>]
+            if isinstance(g.target, ast.Name) and not g.ifs and isinstance(e.elt.args[0], ast.Name) and e.elt.args[0].id == g.target.id:
+                return '(texts %s)' % self.typed(g.iter, env, 'slist'), 'strlist'
+            # [str(value) for key, value in D.items() if key not in O or O[key] != value]
+            if isinstance(g.target, ast.Tuple) and len(g.target.elts) == 2 and all(isinstance(x, ast.Name) for x in g.target.elts) \
+                    and isinstance(g.iter, ast.Call) and isinstance(g.iter.func, ast.Attribute) and g.iter.func.attr == 'items' \
+                    and isinstance(g.iter.func.value, ast.Name) and env.get(g.iter.func.value.id) == 'effdict' and len(g.ifs) == 1 \
+                    and isinstance(e.elt.args[0], ast.Name) and e.elt.args[0].id == g.target.elts[1].id:
+                K_, V_ = g.target.elts[0].id, g.target.elts[1].id
+                c = g.ifs[0]
+                if isinstance(c, ast.BoolOp) and isinstance(c.op, ast.Or) and len(c.values) == 2 \
+                        and isinstance(c.values[0], ast.Compare) and isinstance(c.values[0].ops[0], ast.NotIn) \
+                        and isinstance(c.values[0].left, ast.Name) and c.values[0].left.id == K_ \
+                        and isinstance(c.values[0].comparators[0], ast.Name) and env.get(c.values[0].comparators[0].id) == 'effdict' \
+                        and isinstance(c.values[1], ast.Compare) and isinstance(c.values[1].ops[0], ast.NotEq) \
+                        and ast.unparse(c.values[1].left) == '%s[%s]' % (c.values[0].comparators[0].id, K_) \
+                        and isinstance(c.values[1].comparators[0], ast.Name) and c.values[1].comparators[0].id == V_:
+                    O_ = mangle(c.values[0].comparators[0].id)
+                    D_ = mangle(g.iter.func.value.id)
+                    # `key not in O or O[key] != value`: the lookup is only made for a key that is there
+                    return '((%s.filter (fun kv_ => Py.dictNe %s kv_.1 kv_.2)).map (·.2.txt))' % (D_, O_), 'strlist'
+            raise Unsupported(ast.unparse(e))
         if isinstance(e, ast.Name) and e.id == 'WHITESPACE_CHARS' and e.id not in env:
             return 'whitespaceChars', 'str'                      # the module constant, regenerated in Tables.lean
         if isinstance(e, ast.Name):
@@ -174,10 +246,10 @@ class M:
             return '([] : List Setting)', 'slist'
         if isinstance(e, ast.Subscript) and isinstance(e.slice, ast.Slice) and e.slice.step is None:
             a, ta = self.ex(e.value, env)
-            if ta == 'slist':
+            if ta in ('slist', 'str'):
                 lo = '(none : Option Int)' if e.slice.lower is None else '(some %s)' % self.typed(e.slice.lower, env, 'int')
                 hi = '(none : Option Int)' if e.slice.upper is None else '(some %s)' % self.typed(e.slice.upper, env, 'int')
-                return '(Py.listSlice %s %s %s)' % (a, lo, hi), 'slist'
+                return '(Py.listSlice %s %s %s)' % (a, lo, hi), ta
             raise Unsupported(ast.unparse(e))
         if isinstance(e, ast.Subscript) and not isinstance(e.slice, ast.Slice) and self.is_fmts(e.value, env):
             v = self.point_read(e, env)
@@ -320,8 +392,8 @@ class M:
             (a, ta), (b_, tb) = self.ex(e.left, env), self.ex(e.right, env)
             if isinstance(e.op, (ast.Add, ast.Sub, ast.Mult)) and ta == tb == 'int':
                 return '(%s %s %s)' % (a, {ast.Add: '+', ast.Sub: '-', ast.Mult: '*'}[type(e.op)], b_), 'int'
-            if isinstance(e.op, ast.Add) and ta == tb == 'str':
-                return '(%s ++ %s)' % (a, b_), 'str'
+            if isinstance(e.op, ast.Add) and ta == tb and ta in ('str', 'strlist', 'slist'):
+                return '(%s ++ %s)' % (a, b_), ta
             if isinstance(e.op, ast.Mult) and (ta, tb) == ('str', 'int'):
                 return '(Py.strMul %s %s)' % (a, b_), 'str'
             if isinstance(e.op, ast.Mult) and (ta, tb) == ('int', 'str'):
@@ -329,8 +401,10 @@ class M:
         if isinstance(e, ast.Call) and not e.keywords:
             f = e.func
             if isinstance(f, ast.Name) and f.id == 'len' and len(e.args) == 1:
+                if self.obj_of(e.args[0], env):
+                    return '((%s.s).length : Int)' % self.obj_of(e.args[0], env), 'int'      # AnsiString.__len__
                 a, t = self.ex(e.args[0], env)
-                if t in ('str', 'slist'):
+                if t in ('str', 'slist', 'strlist'):
                     return '((%s).length : Int)' % a, 'int'
             if isinstance(f, ast.Attribute) and f.attr == '_find_setting_reference' and len(e.args) == 2 \
                     and isinstance(f.value, ast.Name) and f.value.id in ('__class__', 'AnsiString', 'self'):
@@ -374,6 +448,10 @@ class M:
                     s = '(Obj.has %s.fmts %s)' % (d, k)
                     return (s if isinstance(o, ast.In) else '(!%s)' % s), 'bool'
                 raise Unsupported(ast.unparse(e))
+            if isinstance(o, (ast.In, ast.NotIn)) and isinstance(r, ast.Name) and env.get(r.id) == 'effdict':
+                k = self.typed(l, env, 'effkey')
+                s_ = '(%s.contains %s)' % (mangle(r.id), k)
+                return (s_ if isinstance(o, ast.In) else '(!%s)' % s_), 'bool'
             if isinstance(o, (ast.In, ast.NotIn)) and isinstance(r, ast.Name) and env.get(r.id) == 'idxmap':
                 k = self.typed(l, env, 'int')
                 s_ = '(%s.any (fun kv_ => kv_.1 == %s))' % (mangle(r.id), k)
@@ -418,7 +496,7 @@ class M:
 
     def b(self, e, env):
         a, t = self.ex(e, env)
-        if t in ('slist', 'str'):
+        if t in ('slist', 'str', 'strlist'):
             return '(!(%s).isEmpty)' % a
         if t == 'optslist':
             return '(Py.truthyOptList %s)' % a
@@ -479,6 +557,10 @@ class M:
                 args = self.bind(st.value, self.sigs[st.value.func.attr], env)
                 pre = self.pre(p)
                 return '%s%s(%s %s %s)' % (pre, p, lean_name(st.value.func.attr), o, ' '.join(args))
+            if getattr(self, 'ret', None) == 'str':
+                a = self.typed(st.value, env, 'str')
+                pre = self.pre(p)
+                return pre + p + '.ok %s' % a
             if getattr(self, 'ret', None) == 'optpair' and isinstance(st.value, ast.Tuple) and len(st.value.elts) == 2:
                 a = self.as_opt(st.value.elts[0], env, 'optint')
                 b_ = self.as_opt(st.value.elts[1], env, 'optint')
@@ -566,6 +648,8 @@ class M:
             b_ = self.block(st.orelse, dict(env), K, ind + 1)
             self.aliased = self.aliased or al_a
             return '%s%sif %s then\n%s\n%selse\n%s' % (pre, p, c, a, p, b_)
+        if isinstance(st, ast.AnnAssign) and st.value is not None and isinstance(st.target, ast.Name):
+            st = ast.Assign(targets=[st.target], value=st.value)
         if isinstance(st, ast.Assign) and len(st.targets) == 1:
             t, v = st.targets[0], st.value
             # O = self / O = self.copy()
@@ -638,6 +722,9 @@ class M:
                     a = '(none : %s)' % LEAN_T[ty]
                 else:
                     a, ty = self.ex(v, env)
+                    if isinstance(v, ast.List) and not v.elts and env.get(t.id) in ('strlist', 'slist', 'ilist'):
+                        ty = env[t.id]
+                        a = '([] : %s)' % LEAN_T[ty]
                     want = env.get(t.id) or (self.none_type(t.id, env) if self.assigned_none(t.id) else None)
                     if want in BASE_OF and BASE_OF[want] == ty:
                         a, ty = '(some %s)' % a, want
@@ -742,12 +829,12 @@ class M:
         if isinstance(st, ast.AugAssign) and isinstance(st.op, ast.Add):
             t = st.target
             ta = self.ex(t, env) if not (isinstance(t, ast.Attribute) and t.attr == '_s') and not isinstance(t, ast.Name) else None
-            if isinstance(t, ast.Name) and env.get(t.id) == 'slist':
-                ta = (mangle(t.id), 'slist')
-            if ta and ta[1] == 'slist' and ta[0].isidentifier():
-                a = self.typed(st.value, env, 'slist')
+            if isinstance(t, ast.Name) and env.get(t.id) in ('slist', 'str', 'strlist'):
+                ta = (mangle(t.id), env[t.id])
+            if ta and ta[1] in ('slist', 'str', 'strlist') and ta[0].isidentifier():
+                a = self.typed(st.value, env, ta[1])
                 pre = self.pre(p)
-                return '%s%slet %s : List Setting := %s ++ %s\n%s' % (pre, p, ta[0], ta[0], a, K(env, ind))
+                return '%s%slet %s : %s := %s ++ %s\n%s' % (pre, p, ta[0], LEAN_T[ta[1]], ta[0], a, K(env, ind))
             if isinstance(t, ast.Attribute) and t.attr == '_s':
                 o = self.obj_of(t.value, env)
                 if o:
@@ -773,6 +860,11 @@ class M:
         if isinstance(st, ast.Expr) and isinstance(st.value, ast.Call) and isinstance(st.value.func, ast.Attribute):
             c = st.value
             m = c.func.attr
+            if m == 'append' and isinstance(c.func.value, ast.Name) and env.get(c.func.value.id) == 'strlist' and len(c.args) == 1 and not c.keywords:
+                x = self.typed(c.args[0], env, 'str')
+                pre = self.pre(p)
+                L = mangle(c.func.value.id)
+                return '%s%slet %s : List Str := %s ++ [%s]\n%s' % (pre, p, L, L, x, K(env, ind))
             # L.append(x)
             if m == 'append' and isinstance(c.func.value, ast.Name) and env.get(c.func.value.id) == 'slist' and len(c.args) == 1 and not c.keywords:
                 x = self.typed(c.args[0], env, 'setting')
@@ -878,7 +970,15 @@ class M:
                     return ('%s(List.foldlM (fun (%s : AStr) (%s : Int) =>\n%s)\n%s  %s (Obj.%s %s.fmts)).bind fun %s =>\n%s'
                             % (p, d, mangle(st.target.id), body, p, d, 'keysDesc' if desc else 'keysAsc', d, d, K(env, ind)))
             # for x in <list of settings>: … L.append(…) …      (one outer list is the loop state; the object is only read)
-            if len(outer_lists) == 1 and not obj_written:
+            def _is_settings(x_):
+                try:
+                    saved = list(self.pending)
+                    r_ = self.ex(x_, env)[1] in ('slist', 'optslist')
+                    self.pending = saved
+                    return r_
+                except Unsupported:
+                    return False
+            if len(outer_lists) == 1 and not obj_written and env.get(outer_lists[0]) == 'slist' and _is_settings(it):
                 src = self.typed(it, env, 'slist')
                 pre = self.pre(p)
                 L = mangle(outer_lists[0])
@@ -974,7 +1074,9 @@ class M:
             x = tgt.id
         else:
             a_, ta_ = self.ex(rng, env)
-            if ta_ == 'ilist':
+            if ta_ == 'effkeys' and not rev:
+                src, elem = a_, 'effkey'
+            elif ta_ == 'ilist':
                 src, elem = ('(%s).reverse' % a_ if rev else a_), 'int'
             elif ta_ == 'str':
                 src, elem = ('(%s).reverse' % a_ if rev else a_), 'char'
@@ -1238,7 +1340,10 @@ class M:
             env = {'self': 'obj'}
             env.update(dict(entry))
             params = list(entry)
-        if getattr(self, 'ret', None) == 'optpair':
+        if getattr(self, 'ret', None) == 'str':
+            text = self.block(body, env, lambda e, i: (_ for _ in ()).throw(Unsupported('falls off the end')), 1)
+            rty = 'Except Exc Str'
+        elif getattr(self, 'ret', None) == 'optpair':
             text = self.block(body, env, lambda e, i: (_ for _ in ()).throw(Unsupported('falls off the end')), 1)
             rty = 'Except Exc (Option Int × Option Int)'
         elif getattr(self, 'ret', None) == 'slist':
@@ -1428,6 +1533,6 @@ def translate(fns, order, point_fns=None, iter_fns=None, with_assertions=False, 
                     ps = ' '.join('(_%s : %s)' % (n, LEAN_T[t]) for n, t, _ in Sig(fn).params) if fn is not None else ''
             except Exception:   # noqa
                 ps = ''
-            out.append(('/-- %s — NOT TRANSLATED (%s) -/\ndef %s (_self : AStr) %s : Except Exc ' + {'slist': '(List Setting)', 'optpair': '(Option Int × Option Int)'}.get(spec.get('ret'), 'AStr') + ' := .error .outside\ndef %sOk : Bool := false\n')
+            out.append(('/-- %s — NOT TRANSLATED (%s) -/\ndef %s (_self : AStr) %s : Except Exc ' + {'slist': '(List Setting)', 'optpair': '(Option Int × Option Int)', 'str': 'Str'}.get(spec.get('ret'), 'AStr') + ' := .error .outside\ndef %sOk : Bool := false\n')
                        % (doc, (type(e).__name__ + ': ' + str(e)).replace('-/', '').replace('\n', ' ')[:300], ln, ps, ln))
     return list(zip(names, out))
